@@ -237,4 +237,9 @@ def rt (c impl : List String) : Option Verdict := do
   let (ok, note) := Spec.C17.holdsRoutes prom pprof obs
   pure { model := model, oracle := ok, nontrivial := false, note := note }
 
+/-- `cgs goroutines gathers | bad`: overlapping Prometheus gathers must all be complete -/
+def cgs (_c impl : List String) : Option Verdict :=
+  pure { model := "0", oracle := impl == ["0"], nontrivial := true,
+         note := if impl == ["0"] then "" else "overlapping scrapes: a gather failed or lacks samples that a gather on its own has, although every interface is readable (the collector is entered concurrently)" }
+
 end Driver.C17
